@@ -12,7 +12,7 @@ theorem prefix_init {base init : List Step} {x : Step} (h : base <+: init ++ [x]
 /-- (operand, join) from a state without open partition -/
 theorem pair_closed (fixed : Bool) (base : List Step) (st : St) (i : Nat) (o : Operand) (opened : Bool)
     (rest : List Item) (hm : Mid base st) (hp : st.partition = none)
-    (ho : operandOK base.length o = true)
+    (ho : OperandOK base.length o)
     (hnf : fixed = true ∨ noFallThrough opened (.op i o :: .jn :: rest) = true)
     (st1 : St) (h1 : stepItem fixed st (.op i o) = .ok st1) :
     ∃ st2, stepItem fixed st1 .jn = .ok st2 ∧ Mid base st2 ∧
@@ -81,7 +81,7 @@ theorem pair_closed (fixed : Bool) (base : List Step) (st : St) (i : Nat) (o : O
     · cases hnf with
       | inl h => exact Or.inl h
       | inr h => right; simp [noFallThrough] at h; exact h.2
-  | subselect al b r =>
+  | subselect al f =>
     obtain ⟨ext, n, e1, e2, e3, e4, e5, e6, e7⟩ :=
       op_closed fixed base.length st i _ hp hm.ok hm.fetched hbl ho (by intro ts ps h; cases h) st1 h1
     rw [hs] at e2
@@ -146,17 +146,21 @@ theorem op_fixed_close (st : St) (i : Nat) (o : Operand) (hnp : ∀ ts ps, o ≠
     have hk : partitionable (if cte = true then Kind.subselect else Kind.fetch) = false := by
       cases cte <;> rfl
     simp only [addPlanStep_fixed_close _ _ _ _ hk, closePartition_idem]
-  | subselect al b r =>
+  | subselect al f =>
     simp only [stepItem, processSubselect, closePartition_plan]
-    cases al with
-    | false => rfl
-    | true =>
-      simp only [if_true, addPlanStep_fixed_close _ _ _ _ (show partitionable .subselect = false from rfl)]
-      have : closePartition { closePartition st with plan := appendBlock st.plan b } =
-          closePartition { st with plan := appendBlock st.plan b } := by
-        unfold closePartition
-        cases h : st.partition <;> simp [h]
-      rw [this]
+    cases hs : f st.plan with
+    | error e => rfl
+    | ok r =>
+      obtain ⟨plan1, x⟩ := r
+      cases al with
+      | false => rfl
+      | true =>
+        simp only [if_true, addPlanStep_fixed_close _ _ _ _ (show partitionable .subselect = false from rfl)]
+        have : closePartition { closePartition st with plan := plan1 } =
+            closePartition { st with plan := plan1 } := by
+          unfold closePartition
+          cases h : st.partition <;> simp [h]
+        rw [this]
 
 theorem Mid_close (base : List Step) (st : St) (hm : Mid base st) : Mid base (closePartition st) := by
   cases hp : st.partition with
@@ -178,7 +182,7 @@ theorem Mid_close (base : List Step) (st : St) (hm : Mid base st) : Mid base (cl
 
 /-- (operand, join) from any state satisfying the invariant -/
 theorem pair_step (fixed : Bool) (base : List Step) (st : St) (i : Nat) (o : Operand) (opened : Bool)
-    (rest : List Item) (hm : Mid base st) (ho : operandOK base.length o = true)
+    (rest : List Item) (hm : Mid base st) (ho : OperandOK base.length o)
     (hopen : st.partition.isSome = true → opened = true)
     (hnf : fixed = true ∨ noFallThrough opened (.op i o :: .jn :: rest) = true)
     (st1 : St) (h1 : stepItem fixed st (.op i o) = .ok st1) :
@@ -239,7 +243,7 @@ theorem pair_step (fixed : Bool) (base : List Step) (st : St) (i : Nat) (o : Ope
         rw [op_fixed_close st i _ (by intro ts ps h; cases h)] at h1
         exact pair_closed true base _ i _ true rest (Mid_close base st hm) (closePartition_partition st) ho
           (Or.inl rfl) st1 h1
-    | subselect al b r =>
+    | subselect al f =>
       cases hnf with
       | inr h => simp [noFallThrough] at h
       | inl hfx =>
@@ -248,20 +252,8 @@ theorem pair_step (fixed : Bool) (base : List Step) (st : St) (i : Nat) (o : Ope
         exact pair_closed true base _ i _ true rest (Mid_close base st hm) (closePartition_partition st) ho
           (Or.inl rfl) st1 h1
 
-theorem pairs_itemOK (base : Nat) (rest : List (Nat × Operand)) (h : (pairs rest).all (itemOK base) = true) :
-    ∀ x ∈ rest, operandOK base x.2 = true := by
-  induction rest with
-  | nil => intro x hx; cases hx
-  | cons y ys ih =>
-    obtain ⟨i, o⟩ := y
-    simp only [pairs, List.all_cons, itemOK, Bool.true_and, Bool.and_eq_true] at h
-    intro x hx
-    cases hx with
-    | head => exact h.1
-    | tail _ hx' => exact ih h.2 x hx'
-
 theorem run_pairs_inv (fixed : Bool) (base : List Step) (rest : List (Nat × Operand)) (st : St) (opened : Bool)
-    (hm : Mid base st) (ho : ∀ x ∈ rest, operandOK base.length x.2 = true)
+    (hm : Mid base st) (ho : ∀ x ∈ rest, OperandOK base.length x.2)
     (hopen : st.partition.isSome = true → opened = true)
     (hnf : fixed = true ∨ noFallThrough opened (pairs rest) = true)
     (st' : St) (h : run fixed (pairs rest) st = .ok st') : Mid base st' := by
@@ -280,7 +272,7 @@ theorem run_pairs_inv (fixed : Bool) (base : List Step) (rest : List (Nat × Ope
 
 /-- the first operand of the sequence -/
 theorem first_op (fixed : Bool) (plan : List Step) (i : Nat) (o : Operand) (rest : List Item)
-    (hok : stepsOK 0 plan = true) (ho : operandOK plan.length o = true)
+    (hok : stepsOK 0 plan = true) (ho : OperandOK plan.length o)
     (hnf : fixed = true ∨ noFallThrough false (.op i o :: rest) = true)
     (st1 : St) (h1 : stepItem fixed ⟨plan, [], none, []⟩ (.op i o) = .ok st1) :
     Mid plan st1 ∧ st1.partition = none ∧ (fixed = true ∨ noFallThrough false rest = true) := by
@@ -296,7 +288,7 @@ theorem first_op (fixed : Bool) (plan : List Step) (i : Nat) (o : Operand) (rest
     · cases hnf with
       | inl h => exact Or.inl h
       | inr h => right; simpa [noFallThrough] using h
-  | subselect al b r =>
+  | subselect al f =>
     obtain ⟨ext, n, e1, e2, e3, e4, e5, e6, e7⟩ :=
       op_closed fixed plan.length ⟨plan, [], none, []⟩ i _ rfl hok (by intro t r hr; simp [lookupFetched] at hr)
         (Nat.le_refl _) ho (by intro ts ps h; cases h) st1 h1
@@ -309,11 +301,11 @@ theorem first_op (fixed : Bool) (plan : List Step) (i : Nat) (o : Operand) (rest
 
 /-- **T9.2 (join tables)** -/
 theorem planJoinTables_inv (fixed : Bool) (t : JT) (plan : List Step)
-    (hok : stepsOK 0 plan = true) (ht : treeOK plan.length t = true)
+    (hok : stepsOK 0 plan = true) (ht : TreeOK plan.length t)
     (hnf : fixed = true ∨ noFallThrough false (seqOf t) = true)
     (plan' : List Step) (x : SNum) (h : planJoinTables fixed t plan = .ok (plan', x)) :
     stepsOK 0 plan' = true ∧ plan <+: plan' ∧ plan.length < plan'.length ∧ x = .top (plan'.length - 1) := by
-  have hitems := seqOf_itemOK plan.length t ht
+  have hitems := seqOf_all (OperandOK plan.length) t ht
   unfold planJoinTables at h
   unfold seqOf at hnf hitems
   cases hs : getJoinSequence t 0 with
@@ -326,89 +318,148 @@ theorem planJoinTables_inv (fixed : Bool) (t : JT) (plan : List Step)
     obtain ⟨i', o', rest', e'⟩ := swapModelFirst_shape i o rest
     rw [e'] at h hnf hitems
     simp only [run] at h
-    simp only [List.all_cons, itemOK, Bool.and_eq_true] at hitems
     cases h1 : stepItem fixed ⟨plan, [], none, []⟩ (.op i' o') with
     | error e => simp [h1] at h
     | ok st1 =>
-      obtain ⟨hm1, hp1, hnf1⟩ := first_op fixed plan i' o' (pairs rest') hok hitems.1 hnf st1 h1
+      obtain ⟨hm1, hp1, hnf1⟩ := first_op fixed plan i' o' (pairs rest') hok
+        (hitems i' o' (List.mem_cons_self ..)) hnf st1 h1
       simp only [h1] at h
       cases h2 : run fixed (pairs rest') st1 with
       | error e => simp [h2] at h
       | ok st2 =>
         have hm2 := run_pairs_inv fixed plan rest' st1 false hm1
-          (pairs_itemOK plan.length rest' hitems.2) (by simp [hp1]) hnf1 st2 h2
+          (fun x hx => hitems x.1 x.2 (List.mem_cons_of_mem _ (pairs_mem rest' x.1 x.2 hx)))
+          (by simp [hp1]) hnf1 st2 h2
         have hm3 := Mid_close plan st2 hm2
         obtain ⟨k, e1, e2, e3⟩ := hm3.closed (closePartition_partition st2)
         simp only [h2, e1, Except.ok.injEq, Prod.mk.injEq] at h
         obtain ⟨rfl, rfl⟩ := h
         exact ⟨hm3.ok, hm3.pre, by omega, by congr 1; omega⟩
 
-/-! ### the wrapper: blocks planned first, `QueryStep` last -/
+/-- an operand that fails from a well-formed plan fails with a user-level error -/
+theorem op_err_user (fixed : Bool) (base : Nat) (st : St) (i : Nat) (o : Operand)
+    (hok : stepsOK 0 st.plan = true) (hb : base ≤ st.plan.length) (ho : OperandOK base o)
+    (e : Err) (h : stepItem fixed st (.op i o) = .error e) : IsUserErr e := by
+  cases o with
+  | table c dc pre => simp [stepItem] at h
+  | predictor ts ps =>
+    simp only [stepItem, processPredictor] at h
+    cases hs : st.stack with
+    | nil => simp [hs] at h; subst h; trivial
+    | cons d rest =>
+      cases ts with
+      | true => simp [hs] at h; subst h; trivial
+      | false => simp [hs] at h
+  | subselect al f =>
+    simp only [stepItem, processSubselect] at h
+    have hg := ho st.plan hb hok
+    cases hs : f st.plan with
+    | error e' => rw [hs] at hg; simp [hs] at h; subst h; exact hg
+    | ok r =>
+      obtain ⟨plan1, x⟩ := r
+      cases al with
+      | false => simp [hs] at h; subst h; trivial
+      | true => simp [hs] at h
 
-def preOK : List (List Step × Nat × Bool) → Bool
-  | [] => true
-  | (b, r, _) :: rest => stepsOK 0 b && decide (r < b.length) && preOK rest
-
-theorem planPre_inv (pre : List (List Step × Nat × Bool)) (plan : List Step) (acc : List SNum)
-    (hok : stepsOK 0 plan = true) (hpre : preOK pre = true) (hacc : acc.all (refOKTop plan.length) = true) :
-    stepsOK 0 (planPre pre plan acc).1 = true ∧ plan <+: (planPre pre plan acc).1 ∧
-      (planPre pre plan acc).2.all (refOKTop (planPre pre plan acc).1.length) = true := by
-  induction pre generalizing plan acc with
-  | nil => exact ⟨hok, List.prefix_refl _, hacc⟩
+theorem run_pairs_err (fixed : Bool) (base : List Step) (rest : List (Nat × Operand)) (st : St) (opened : Bool)
+    (hm : Mid base st) (ho : ∀ x ∈ rest, OperandOK base.length x.2)
+    (hopen : st.partition.isSome = true → opened = true)
+    (hnf : fixed = true ∨ noFallThrough opened (pairs rest) = true)
+    (e : Err) (h : run fixed (pairs rest) st = .error e) : IsUserErr e := by
+  induction rest generalizing st opened with
+  | nil => simp [pairs, run] at h
   | cons x xs ih =>
-    obtain ⟨b, r, keep⟩ := x
-    simp only [preOK, Bool.and_eq_true, decide_eq_true_eq] at hpre
-    simp only [planPre]
-    have hok1 := stepsOK_appendBlock plan b hok hpre.1.1
-    have hl : plan.length ≤ (appendBlock plan b).length := by simp [appendBlock_length]
-    have hacc1 : (if keep = true then acc ++ [SNum.top (plan.length + r)] else acc).all
-        (refOKTop (appendBlock plan b).length) = true := by
-      have hmono : acc.all (refOKTop (appendBlock plan b).length) = true := by
-        rw [List.all_eq_true] at hacc ⊢
-        intro y hy; exact refOKTop_mono hl y (hacc y hy)
-      cases keep with
-      | false => simpa using hmono
-      | true =>
-        simp only [if_true, List.all_append, hmono, Bool.true_and]
-        simp [refOKTop, appendBlock_length]; omega
-    obtain ⟨a1, a2, a3⟩ := ih (appendBlock plan b) _ hok1 hpre.2 hacc1
-    exact ⟨a1, List.IsPrefix.trans (List.prefix_append _ _) a2, a3⟩
+    obtain ⟨i, o⟩ := x
+    simp only [pairs, run] at h
+    cases h1 : stepItem fixed st (.op i o) with
+    | error e1 =>
+      simp [h1] at h; subst h
+      exact op_err_user fixed base.length st i o hm.ok (prefix_length_le hm.pre)
+        (ho (i, o) (List.mem_cons_self ..)) e1 h1
+    | ok st1 =>
+      obtain ⟨st2, h2, hm2, opened', ho2, hnf2⟩ :=
+        pair_step fixed base st i o opened (pairs xs) hm (ho (i, o) (List.mem_cons_self ..)) hopen hnf st1 h1
+      simp only [h1, h2] at h
+      exact ih st2 opened' hm2 (fun y hy => ho y (List.mem_cons_of_mem _ hy)) ho2 hnf2 h
 
-/-- **T9.2** `PlanJoinTablesQuery.plan` (blocks for CTEs / nested selects, the join sequence, the optional
-`QueryStep`) preserves the invariant and returns the last step, for the repaired `add_plan_step`
-unconditionally and for the pinned one whenever the open-partition fall-through cannot occur. -/
-theorem planJoin_inv (fixed : Bool) (q : JQ) (plan : List Step)
-    (hok : stepsOK 0 plan = true) (hpre : preOK q.pre = true)
-    (ht : treeOK (planPre q.pre plan []).1.length q.tree = true)
-    (hnf : fixed = true ∨ noFallThrough false (seqOf q.tree) = true)
-    (plan' : List Step) (x : SNum) (h : planJoin fixed q plan = .ok (plan', x)) :
-    stepsOK 0 plan' = true ∧ plan <+: plan' ∧ plan.length < plan'.length ∧ x = .top (plan'.length - 1) := by
-  obtain ⟨p1, p2, p3⟩ := planPre_inv q.pre plan [] hok hpre (by simp)
-  unfold planJoin at h
-  cases hj : planJoinTables fixed q.tree (planPre q.pre plan []).1 with
-  | error e => simp [hj] at h
+/-- from a well-formed plan the join planner fails only with user-level errors -/
+theorem planJoinTables_err (fixed : Bool) (t : JT) (plan : List Step)
+    (hok : stepsOK 0 plan = true) (ht : TreeOK plan.length t)
+    (hnf : fixed = true ∨ noFallThrough false (seqOf t) = true)
+    (e : Err) (h : planJoinTables fixed t plan = .error e) : IsUserErr e := by
+  have hitems := seqOf_all (OperandOK plan.length) t ht
+  unfold planJoinTables at h
+  unfold seqOf at hnf hitems
+  cases hs : getJoinSequence t 0 with
+  | error e1 => simp [hs] at h; subst h; exact getJoinSequence_error_user t 0 e1 hs
+  | ok p =>
+    obtain ⟨s, m⟩ := p
+    simp only [hs] at h hnf hitems
+    obtain ⟨i, o, rest, e0⟩ := getJoinSequence_shape t 0 s m hs
+    subst e0
+    obtain ⟨i', o', rest', e'⟩ := swapModelFirst_shape i o rest
+    rw [e'] at h hnf hitems
+    simp only [run] at h
+    cases h1 : stepItem fixed ⟨plan, [], none, []⟩ (.op i' o') with
+    | error e1 =>
+      simp [h1] at h; subst h
+      exact op_err_user fixed plan.length ⟨plan, [], none, []⟩ i' o' hok (Nat.le_refl _)
+        (hitems i' o' (List.mem_cons_self ..)) e1 h1
+    | ok st1 =>
+      obtain ⟨hm1, hp1, hnf1⟩ := first_op fixed plan i' o' (pairs rest') hok
+        (hitems i' o' (List.mem_cons_self ..)) hnf st1 h1
+      simp only [h1] at h
+      have hrest : ∀ x ∈ rest', OperandOK plan.length x.2 :=
+        fun x hx => hitems x.1 x.2 (List.mem_cons_of_mem _ (pairs_mem rest' x.1 x.2 hx))
+      cases h2 : run fixed (pairs rest') st1 with
+      | error e2 =>
+        simp [h2] at h; subst h
+        exact run_pairs_err fixed plan rest' st1 false hm1 hrest (by simp [hp1]) hnf1 e2 h2
+      | ok st2 =>
+        have hm2 := run_pairs_inv fixed plan rest' st1 false hm1 hrest (by simp [hp1]) hnf1 st2 h2
+        have hm3 := Mid_close plan st2 hm2
+        obtain ⟨k, e1, e2, e3⟩ := hm3.closed (closePartition_partition st2)
+        simp [h2, e1] at h
+
+theorem TreeOK.mono {n m : Nat} {t : JT} (h : TreeOK n t) (hnm : n ≤ m) : TreeOK m t := by
+  induction t with
+  | leaf o =>
+    cases o with
+    | table c d pre =>
+      simp only [TreeOK, leavesAll, OperandOK] at h ⊢
+      rw [List.all_eq_true] at h ⊢
+      intro x hx; exact refOKTop_mono hnm x (h x hx)
+    | predictor ts ps => trivial
+    | subselect al f => exact Good.mono h hnm
+  | join l r ihl ihr => exact ⟨ihl h.1, ihr h.2⟩
+  | bad => trivial
+
+/-- **T9.2** `PlanJoinTablesQuery.plan` (the join sequence and the optional `QueryStep`) satisfies C09: for the
+repaired `add_plan_step` unconditionally, for the one without `close_partition` on the fall-through path whenever
+the fall-through cannot occur. -/
+theorem planJoin_good (fixed : Bool) (n : Nat) (t : JT) (wrap : Bool) (params : List SNum)
+    (ht : TreeOK n t) (hp : params.all (refOKTop n) = true)
+    (hnf : fixed = true ∨ noFallThrough false (seqOf t) = true) : Good n (planJoin fixed t wrap params) := by
+  intro plan hl hok
+  unfold planJoin
+  cases hj : planJoinTables fixed t plan with
+  | error e => exact planJoinTables_err fixed t plan hok (ht.mono hl) hnf e hj
   | ok r =>
     obtain ⟨plan1, j⟩ := r
-    obtain ⟨j1, j2, j3, j4⟩ := planJoinTables_inv fixed q.tree _ p1 ht hnf plan1 j hj
-    have hl := prefix_length_le p2
-    simp only [hj] at h
-    cases hw : q.wrap with
-    | false =>
-      simp only [hw, Bool.false_eq_true, if_false, Except.ok.injEq, Prod.mk.injEq] at h
-      obtain ⟨rfl, rfl⟩ := h
-      exact ⟨j1, List.IsPrefix.trans p2 j2, by omega, j4⟩
+    obtain ⟨j1, j2, j3, j4⟩ := planJoinTables_inv fixed t plan hok (ht.mono hl) hnf plan1 j hj
+    cases wrap with
+    | false => exact ⟨j1, j2, j3, j4⟩
     | true =>
-      simp only [hw, if_true, Except.ok.injEq, Prod.mk.injEq] at h
-      obtain ⟨rfl, rfl⟩ := h
+      simp only [if_true]
       refine ⟨?_, ?_, ?_, ?_⟩
       · apply addStep_ok _ _ j1 (Or.inl rfl)
         · simp only [List.all_cons, Bool.and_eq_true]
           constructor
           · subst j4; simp [refOKTop]; omega
-          · rw [List.all_eq_true] at p3 ⊢
-            intro y hy; exact refOKTop_mono (by omega) y (p3 y hy)
+          · rw [List.all_eq_true] at hp ⊢
+            intro y hy; exact refOKTop_mono (by omega) y (hp y hy)
         · rfl
-      · exact List.IsPrefix.trans p2 (List.IsPrefix.trans j2 (by simp [addStep]))
+      · exact List.IsPrefix.trans j2 (by simp [addStep])
       · simp [addStep]; omega
       · simp [addStep]
 
